@@ -70,7 +70,8 @@ def record_case(case):
                 buf.append(e)
             elif e['ev'] == 'pend':
                 for x in buf:
-                    x['pos'] = e['n'] - x.pop('rem')
+                    if 'rem' in x:
+                        x['pos'] = e['n'] - x.pop('rem')
                 out.extend(buf)
                 buf = []
                 out.append(e)
